@@ -64,6 +64,8 @@ def kinds_schema(byte_order="littleEndian", package=None):
         Ref("rs", "S_32"),
         T("k", "uint8", presence="constant", const="9"),
         Ref("rk", "K_str"),
+        T("kv", "uint8", presence="constant", value_ref="E_uint8.A"),
+        Ref("rkr", "K_ref"),
         T("arr", "char", length=2),
         T("opt", "double", presence="optional"),
     ]))
